@@ -23,6 +23,10 @@ from vlib.runner import Facet, Prop, Violation, require
 COLORS = ["red", "blue", "green", "#123456", "rgba(1,2,3,0.5)", "hsl(230,20,70)", "orange", "black"]
 
 
+PROC_POOL = ["use", "use phase", "waste", "waste treatment", "P1", "P10", "fab (new)", "a.b", "a+b", "recycling [EU]"]
+FLOW_POOL = ["scrap", "scrap (old)", "scrap (old) to smelter", "F1", "F10", "x*", "x.y", "xay", "steel|iron", "steel", "ore \\ raw", "ore"]
+
+
 def r9(v):
     return round(float(v), 9)
 
@@ -111,9 +115,22 @@ def sankey_cases(draw):
     allL = gen.uletters(U)
     nproc = draw(st.integers(2, 5))
     procs = ["sysenv"] + [f"proc {i}" for i in range(1, nproc)]
+    naming = draw(st.sampled_from(["numbered", "arrow", "pool"]))
+    if naming != "numbered":
+        # real names: some are the beginning of others, some contain characters special to pattern languages
+        procs = ["sysenv"] + list(draw(st.permutations(PROC_POOL)))[: nproc - 1]
+    fpool = list(draw(st.permutations(FLOW_POOL)))
     flows = []
+    taken = set()
     for i in range(draw(st.integers(1, 6))):
         f = {"name": f"flow {i}", "src": draw(st.integers(0, nproc - 1)), "dst": draw(st.integers(0, nproc - 1)), "letters": draw(gen.ordered_subtuple(allL))}
+        if naming == "arrow":
+            f["name"] = f"{procs[f['src']]} => {procs[f['dst']]}"
+            if f["name"] in taken:
+                f["name"] += f" #{i}"
+        elif naming == "pool":
+            f["name"] = fpool[i]
+        taken.add(f["name"])
         if len(f["letters"]) >= 2:
             f["mem"] = draw(st.sampled_from(["C", "C", "F"]))
         flows.append(f)
